@@ -956,6 +956,8 @@ class RewriteRuleSet:
         """
         assert isinstance(model, ir.Model)
         self._used_value_names = None
+        # The names given to new values depend on the model alone, not on what this rule set rewrote before.
+        self._value_name_counter = 0
         onnxscript.optimizer.basic_constant_propagation(model.graph)
         # Rewriting may introduce new functions. In the following loop,
         # we restrict rewriting to original functions, not newly introduced ones.
